@@ -7,8 +7,18 @@
 mod cfg;
 mod frames;
 mod c01;
+mod c07;
+mod vals;
+mod c03;
+mod c02;
+mod c04;
+mod alloc;
+mod c17;
 
 use cfg::Cfg;
+
+#[global_allocator]
+static GLOBAL: alloc::Counting = alloc::Counting;
 
 fn main() {
     let args: Vec<String> = std::env::args().collect();
@@ -24,6 +34,11 @@ fn main() {
     }
     let report = match name {
         "c01" => c01::run(&cfg),
+        "c07" => c07::run(&cfg),
+        "c03" => c03::run(&cfg),
+        "c02" => c02::run(&cfg),
+        "c04" => c04::run(&cfg),
+        "c17" => c17::run(&cfg),
         _ => {
             eprintln!("unknown monitor {name}");
             std::process::exit(2);
